@@ -20,7 +20,8 @@ RULE = ('random exportable domains: 1-5 (thorough: 1-8) Line/Square/Cube/NCube(4
         '(integers, dyadic and decimal fractions, negative, 1e-9..1e12), hygienic unique names (ASCII + a few non-ASCII), '
         'plain / all mapped / mixed / one logical patch under several mappings; joined by Domain.join with random '
         'admissible connection sets (each face at most once, same axis, at most two interfaces per pair of patches, at most one '
-        'self-interface per patch, closed rings included), random orientations (2D +-1, 3D sign triples, omitted); '
+        'self-interface per patch, closed rings included), random orientations (2D +-1, 3D sign triples, omitted; a third of them '
+        'handed to join as numpy integers / rows of integer arrays / sympy Integers instead of built-in ints); '
         'cases: every constructor call, patch domain, join call (plus a refused stream: axis mismatch, 4D interfaces, int '
         'orientation in 3D, mixed dimensions), todict, exportable check, and export -> real .h5 file -> Domain.from_file; '
         'plus a malformed-file stream (unknown patch, missing dtype, bad axis, boundary written as dict, no orientation entry). '
@@ -146,9 +147,11 @@ def ser_conn(cn):
     (mi, ma, me), (pi, pa, pe) = cn[0], cn[1]
     if len(cn) == 2:
         o = A('None')
-    elif isinstance(cn[2], (tuple, list)):
+    elif isinstance(cn[2], (tuple, list)) or type(cn[2]).__name__ in ('ndarray', 'Tuple'):
+        # a sequence (subscriptable): tuple, list, row of an integer numpy array, sympy Tuple
         o = [A('seq')] + [int(x) for x in cn[2]]
     else:
+        # a scalar: Python int, numpy integer, sympy Integer - modelled as the integer it denotes
         o = [A('int'), int(cn[2])]
     return [A('cn'), mi, ma, me, pi, pa, pe, o]
 
@@ -168,6 +171,7 @@ class Spec:
 
     def __init__(self):
         self.patches, self.conns, self.name = [], [], None
+        self.forms = []         # per connection: how its orientation is handed to Domain.join (see ORNT_FORMS)
 
 
 def rand_bound(rng):
@@ -186,6 +190,61 @@ def rand_bound(rng):
         return lo, lo + abs(lo) * rng.choice([1.0, 0.5]) + rng.choice([1e-9, 1.0, 1e12])
     lo = rng.choice([0, 1, -1])
     return lo, lo + rng.choice([1, 2])          # Python ints, converted by the constructor
+
+
+# How the orientation of a connection reaches Domain.join.  The specification (Spec.conns) always keeps plain
+# Python ints - the ground truth -, `given_conns` materialises the value that is handed over.  Connectivity
+# tables computed or loaded with numpy give numpy integers (np.sign(...), entries / rows of integer arrays),
+# symbolic preprocessing gives sympy Integers; all of them denote the same orientation.
+ORNT_FORMS = {2: ['py', 'np-int64', 'np-sign', 'np-int32', 'np-int8', 'np-entry', 'sympy'],
+              3: ['py', 'np-tuple', 'np-sign', 'np-int32', 'np-int8', 'np-row', 'np-list', 'list', 'sympy', 'sympy-Tuple']}
+
+
+def given_ornt(o, form):
+    """the orientation `o` (int in 2D, tuple of 3 ints in 3D) in the representation `form`"""
+    if form == 'py':
+        return o
+    import numpy as np
+    import sympy
+    if isinstance(o, tuple):
+        if form == 'np-row':
+            return np.array([[7, 7, 7], list(o)])[1]                  # a row of an integer table
+        if form == 'np-sign':
+            return np.sign(np.array([3 * x for x in o]))              # ndarray of signs
+        if form == 'np-int32':
+            return np.array(o, dtype=np.int32)
+        if form == 'np-int8':
+            return tuple(np.int8(x) for x in o)
+        if form == 'np-list':
+            return [np.int64(x) for x in o]
+        if form == 'list':
+            return list(o)
+        if form == 'sympy':
+            return tuple(sympy.Integer(x) for x in o)
+        if form == 'sympy-Tuple':
+            return sympy.Tuple(*o)
+        if form == 'np-tuple':
+            return tuple(np.int64(x) for x in o)
+        raise ValueError(form)
+    if form == 'np-sign':
+        return np.sign(np.int64(3 * o))
+    if form == 'np-int32':
+        return np.int32(o)
+    if form == 'np-int8':
+        return np.int8(o)
+    if form == 'np-entry':
+        return np.array([7, o])[1]                                    # an entry of an integer array
+    if form == 'sympy':
+        return sympy.Integer(o)
+    if form == 'np-int64':
+        return np.int64(o)
+    raise ValueError(form)
+
+
+def given_conns(s):
+    """the connectivity list handed to Domain.join: s.conns with the orientations in the forms s.forms"""
+    forms = list(s.forms) + ['py'] * (len(s.conns) - len(s.forms))
+    return [cn if len(cn) == 2 else (cn[0], cn[1], given_ornt(cn[2], f)) for cn, f in zip(s.conns, forms)]
 
 
 def gen_spec(rng, thorough, dim=None, npatch=None):
@@ -242,6 +301,8 @@ def gen_spec(rng, thorough, dim=None, npatch=None):
             else:
                 cn = (f, g) if rng.random() < 0.2 else (f, g, tuple(rng.choice([1, -1]) for _ in range(3)))
             s.conns.append(cn)
+            # a third of the explicit orientations are not built-in ints
+            s.forms.append('py' if len(cn) == 2 or rng.random() < 0.65 else rng.choice(ORNT_FORMS[s.dim][1:]))
     return s
 
 
@@ -271,7 +332,7 @@ def build(m, s):
     ps = [build_patch(m, p) for p in s.patches]
     if len(ps) == 1:
         return ps, ps[0]
-    return ps, m['Domain'].join(ps, list(s.conns), s.name)
+    return ps, m['Domain'].join(ps, given_conns(s), s.name)
 
 
 def write_dict(m, y, path):
@@ -291,7 +352,10 @@ def raw_yaml(m, path):
 
 
 def spec_str(s):
-    return '%s dim=%d patches=%s conns=%s' % (s.name, s.dim, [(p[0], p[4]) for p in s.patches], s.conns)
+    r = '%s dim=%d patches=%s conns=%s' % (s.name, s.dim, [(p[0], p[4]) for p in s.patches], s.conns)
+    if any(f != 'py' for f in s.forms):
+        r += ' ornt-given-as=%s' % ([f for f in s.forms],)
+    return r
 
 
 # --------------------------------------------------------------------------- correspondence
@@ -345,9 +409,12 @@ def correspondence(ctx):
                 add('patchdom', 'C15 patchdom ' + dumps(ser_patch(P.interior)), 'ok ' + dumps(ser_dom(P, m)), P.interior.mapping is not None or s.dim >= 4)
             sdoms = [ser_dom(P, m) for P in ps]
             if len(ps) >= 2:
-                add('join', 'C15 join %s %s %s' % (dumps(sdoms), dumps([ser_conn(cn) for cn in s.conns]), dumps(s.name)),
+                add('join', 'C15 join %s %s %s' % (dumps(sdoms), dumps([ser_conn(cn) for cn in given_conns(s)]), dumps(s.name)),
                     'ok ' + dumps(ser_dom(D, m)), True)
                 c.count('join:conns=%d' % min(len(s.conns), 6))
+                for f in s.forms:
+                    if f != 'py':
+                        c.count('join:ornt-given-as:' + f)
                 if rng.random() < 0.3:
                     # refused joins
                     k = rng.choice(['axis', 'ornt-int-3d', '4d', 'mixed-dim', 'no-face'])
@@ -564,6 +631,43 @@ def fixed_corpus(o, m, tmp):
     MD = Mp('c15fM', dim=2)(Dm.join([P_, Q_], [((0, 0, 1), (1, 0, -1), -1)], 'c15fOm'))
     o.evaluations += 1
     check_roundtrip(o, m, tmp, MD, 'fixed:F(Omega)', 'F(Omega): one mapping applied to a joined two-patch domain', expect_second_export=False)
+    # orientations that reach Domain.join as numpy / sympy integers (connectivity tables computed with numpy):
+    # built from a hand-written specification, so the re-read domain is also compared with plain-int ground truth
+    for key, what, dim, patches, conns, forms in FIXED_ORNT_FORMS:
+        s = Spec()
+        s.dim, s.mode, s.name = dim, 'fixed', 'c15f' + key.replace('-', '')
+        s.patches = [('c15f%s%s' % (key.replace('-', ''), nm), dim, list(mins), list(maxs),
+                      None if mp is None else 'c15f%s%s' % (key.replace('-', ''), mp)) for (nm, mins, maxs, mp) in patches]
+        s.conns, s.forms = list(conns), list(forms)
+        o.evaluations += 1
+        try:
+            ps, D = build(m, s)
+        except Exception as e:
+            o.fail('build-raised:fixed:' + key, 'building %s raised %r' % (what, e))
+            continue
+        check_roundtrip(o, m, tmp, D, 'fixed:' + key, what, spec=s)
+
+
+FIXED_ORNT_FORMS = [
+    ('ornt-2d-numpy-sign', 'two squares joined with ornt = np.sign(...) = -1 (numpy integer)', 2,
+     [('A', (0, 0), (1, 2), None), ('B', (1, 0), (3, 2), None)],
+     [((0, 0, 1), (1, 0, -1), -1)], ['np-sign']),
+    ('ornt-2d-numpy-entry', 'three squares, orientations +1 / -1 taken from an integer numpy array (one default interface)', 2,
+     [('A', (0, 0), (1, 1), 'F'), ('B', (1, 0), (2, 1), None), ('C', (2, 0), (3, 1), 'G')],
+     [((0, 0, 1), (1, 0, -1), 1), ((1, 0, 1), (2, 0, -1), -1), ((0, 1, 1), (2, 1, -1))], ['np-entry', 'np-int32', 'py']),
+    ('ornt-3d-numpy-row', 'two mapped cubes joined with ornt = a row (1,-1,1) of an integer numpy array', 3,
+     [('P', (0, 0, 0), (1, 1, 1), 'F'), ('Q', (0, 1, 0), (1, 2, 1), 'G')],
+     [((0, 1, 1), (1, 1, -1), (1, -1, 1))], ['np-row']),
+    ('ornt-3d-numpy-tuple', 'two cubes joined twice, ornt = tuple / list of numpy integers', 3,
+     [('P', (0, 0, 0), (1, 1, 1), None), ('Q', (1, 0, 0), (2, 1, 1), None)],
+     [((0, 0, 1), (1, 0, -1), (-1, 1, -1)), ((1, 0, 1), (0, 0, -1), (1, 1, 1))], ['np-tuple', 'np-list']),
+    ('ornt-2d-sympy', 'two squares joined with ornt = sympy Integer(-1)', 2,
+     [('A', (0, 0), (1, 1), None), ('B', (0, 1), (1, 2), None)],
+     [((0, 1, 1), (1, 1, -1), -1)], ['sympy']),
+    ('ornt-3d-sympy', 'two cubes joined with ornt = sympy Tuple(-1, -1, 1)', 3,
+     [('P', (0, 0, 0), (1, 1, 1), None), ('Q', (0, 0, 1), (1, 1, 3), 'H')],
+     [((0, 2, 1), (1, 2, -1), (-1, -1, 1))], ['sympy-Tuple']),
+]
 
 
 def oracle(ctx, factor, seeds):
@@ -585,6 +689,9 @@ def oracle(ctx, factor, seeds):
             o.count('mode:' + s.mode)
             o.count('patches:%d' % len(s.patches))
             o.count('conns:%d' % min(len(s.conns), 6))
+            for f in s.forms:
+                if f != 'py':
+                    o.count('ornt-given-as:' + f)
             check_roundtrip(o, m, tmp, D, spec_str(s), 'domain ' + spec_str(s), spec=s)
             if len(o.samples) < 4 and len(s.patches) > 1:
                 o.samples.append({'spec': spec_str(s)})
